@@ -79,6 +79,9 @@ def main(chk):
     exhaust.run_sweeps(chk, w2c2, 'C01', [e for e in exhaust.sweep_ops() if e[1] in gen.INT_OPS], builds,
                        slow_builds=(() if quick else ('clang-O0-nobuiltin', 'gcc-O0-gnu89')))
 
+    # the same opcodes on compile-time CONSTANT operands (what the C compiler folds), every non-trapping tuple of the tables
+    exhaust.run_constfold(chk, w2c2, 'C01', gen.INT_OPS, builds, env.rng('c01-constfold'))
+
     # nested programs
     prof = gen.Profile(ops=set(gen.INT_OPS), types=[I32, I64], nan_canon=False, w_trace=0.3)
     nmods = 160 if quick else 1500
